@@ -138,7 +138,20 @@ def loop_spec(interp, node, fr):
     if key not in cache:
         cache[key] = {id(n): i for i, n in enumerate(_loops_in_order(fr.func.node))}
     ordinal = cache[key].get(id(node))
-    return specs.get((q, ordinal))
+    spec = specs.get((q, ordinal))
+    if spec is None:
+        return None
+    # a contract that names locals the (refactored) function no longer has cannot be applied: fall back to plain execution of the
+    # loop (unrolling), which decides the bounded harnesses and leaves the unbounded ones undecided - never a violation
+    opts, f = spec
+    hv = opts.get("havoc")
+    names = [k for k, _ in (hv.pairs if isinstance(hv, PyDict) else list((hv or {}).items()))]
+    names += [p.arg for p in f.node.args.args if p.arg not in ("entry", "loop_seen", "loop_item")]
+    missing = [n for n in names if n not in fr.locals]
+    if missing:
+        interp.ctx.notes.append(f"loop contract {q}#{ordinal} not applicable: the function has no local(s) {missing}; loop executed by unrolling")
+        return None
+    return spec
 
 
 # ------------------------------------------------------------------------------------------------
